@@ -694,6 +694,18 @@ fn corrupt_sig(b: &[u8], base: usize, r: &mut Rng) -> Vec<(String, Vec<u8>)> {
         v.push(("sig_count_minus1".to_string(), put(b, base + 16, &le64(n.wrapping_sub(1)))));
     }
     v.push(("sig_file_size".to_string(), put(b, base + 8, &le64(*r.pick(&EXTREME64)))));
+    // the `index` field of a block record (u32 at +24 + 40k): out of range, or another block's number - a reader that
+    // trusts it as a position must not crash
+    if b.len() >= base + 24 {
+        let n = u64::from_le_bytes(b[base + 16..base + 24].try_into().unwrap()) as usize;
+        if n > 0 && b.len() >= base + 24 + 40 * n {
+            for k in [0usize, n - 1] {
+                for val in [n as u32, 1000, u32::MAX, ((k + 1) % n) as u32] {
+                    v.push(("sig_block_index".to_string(), put(b, base + 24 + 40 * k, &val.to_le_bytes())));
+                }
+            }
+        }
+    }
     v
 }
 /// single-field corruptions of an encoded Delta starting at `base`
@@ -1059,7 +1071,7 @@ pub fn main(a: Args) -> i32 {
             let b = bincode::serialize(&s).unwrap();
             files.push(("CLIDELTA", "cli_valid".into(), b.clone()));
             for (what, x) in corrupt_sig(&b, 0, &mut r) {
-                if what == "sig_block_size" || what == "sig_count" || r.chance(1, 2) {
+                if what == "sig_block_size" || what == "sig_count" || what == "sig_block_index" || r.chance(1, 2) {
                     if i < 3 || r.chance(1, 4) {
                         files.push(("CLIDELTA", format!("cli_{}", what), x));
                     }
